@@ -145,3 +145,92 @@ Proof.
     destruct (len acc <? p_min p); discriminate.
   - split; reflexivity.
 Qed.
+
+(* ---------- scheduler parameter changes (scheduler/api/sanity_check.go:31-62 after commit
+   2b1f48e; apps/scheduler/messages.go:35-41: changes.SanityCheck, Apply, params.SanityCheck) ----------
+   Go ints are signed: the proposed values are in Z.  None = the proposal is refused. *)
+Definition sched_change (cmin cmax : option Z) (pmin pmax : Z) : option (Z * Z) :=
+  let bad c := match c with Some v => (v <=? 0)%Z | None => false end in
+  if bad cmin || bad cmax then None                       (* ConsensusParameterChanges.SanityCheck :55-60 *)
+  else
+    let pmin' := match cmin with Some v => v | None => pmin end in   (* Apply *)
+    let pmax' := match cmax with Some v => v | None => pmax end in
+    if (0 <? pmax')%Z && (pmax' <? pmin')%Z then None     (* ConsensusParameters.SanityCheck :41-43 *)
+    else Some (pmin', pmax').
+
+(* the same without the checks added by 2b1f48e *)
+Definition sched_change_original (cmin cmax : option Z) (pmin pmax : Z) : option (Z * Z) :=
+  Some (match cmin with Some v => v | None => pmin end, match cmax with Some v => v | None => pmax end).
+
+(* positive and consistent, as InitChain requires (apps/scheduler/genesis.go:29-34) together
+   with the parameter sanity check *)
+Definition sched_consistent (pmin pmax : Z) : Prop := (0 < pmin /\ 0 < pmax /\ pmin <= pmax)%Z.
+
+(* a history of proposed changes: refused ones leave the parameters alone *)
+Fixpoint sched_run (cs : list (option Z * option Z)) (pmin pmax : Z) : Z * Z :=
+  match cs with
+  | [] => (pmin, pmax)
+  | (cmin, cmax) :: r =>
+      match sched_change cmin cmax pmin pmax with
+      | Some (a, b) => sched_run r a b
+      | None => sched_run r pmin pmax
+      end
+  end.
+
+Lemma sched_change_consistent cmin cmax pmin pmax a b :
+  sched_consistent pmin pmax -> sched_change cmin cmax pmin pmax = Some (a, b) -> sched_consistent a b.
+Proof.
+  intros [H1 [H2 H3]]. unfold sched_change.
+  destruct cmin as [x|], cmax as [y|]; cbn [orb];
+    repeat match goal with
+    | |- context [(?u <=? 0)%Z] => destruct (Z.leb_spec u 0); cbn [orb]
+    end; try discriminate;
+    repeat match goal with
+    | |- context [(0 <? ?u)%Z] => destruct (Z.ltb_spec 0 u); cbn [andb]
+    | |- context [(?u <? ?v)%Z] => destruct (Z.ltb_spec u v); cbn [andb]
+    end; try discriminate; intros E; injection E as <- <-; unfold sched_consistent; lia.
+Qed.
+
+Lemma sched_run_consistent cs : forall pmin pmax,
+  sched_consistent pmin pmax ->
+  sched_consistent (fst (sched_run cs pmin pmax)) (snd (sched_run cs pmin pmax)).
+Proof.
+  induction cs as [|[cmin cmax] r IH]; intros pmin pmax H; cbn [sched_run]; [exact H|].
+  destruct (sched_change cmin cmax pmin pmax) as [[a b]|] eqn:E.
+  - apply IH. eapply sched_change_consistent; eassumption.
+  - apply IH. exact H.
+Qed.
+
+(* Through parameter changes alone the election's "insufficient validators" failure is
+   unreachable: whatever changes were proposed, with the resulting MinValidators / MaxValidators
+   the election succeeds as soon as MinValidators stake-eligible candidates exist. *)
+Lemma election_not_insufficient_by_parameters cs pmin0 pmax0 p ents perm_e cands sh :
+  sched_consistent pmin0 pmax0 ->
+  Z.of_N (p_min p) = fst (sched_run cs pmin0 pmax0) ->
+  Z.of_N (p_max p) = snd (sched_run cs pmin0 pmax0) ->
+  let seq := cand_seq_sh p ents perm_e cands sh in
+  powers_defined p ents seq -> NoDup (map n_cons seq) ->
+  p_min p <= len seq ->
+  exists vals vents, elect_core p ents perm_e cands sh = VOk vals vents.
+Proof.
+  intros Hc Hmin Hmax seq Hp Hnd Hlen.
+  pose proof (sched_run_consistent cs pmin0 pmax0 Hc) as [H1 [H2 H3]].
+  rewrite <- Hmin in H1, H3. rewrite <- Hmax in H2, H3.
+  apply election_succeeds_under_precondition; try assumption.
+  - intros E. fold seq in E. rewrite E in Hlen. unfold len in Hlen. cbn in Hlen. lia.
+  - lia.
+Qed.
+
+(* the ORIGINAL change handler accepted {min 2, max 1}: a concrete election with two eligible
+   validators then fails with "insufficient validators" *)
+Definition ex_node (i : N) : node := mkNode i i (100 + i) 8 1000 0 0 [] [].
+Lemma sched_change_original_refuted :
+  sched_change_original (Some 2%Z) (Some 1%Z) 1 100 = Some (2%Z, 1%Z) /\
+  sched_change (Some 2%Z) (Some 1%Z) 1 100 = None /\
+  elect_core (mkParams 2 1 1 true false) [] [0; 1] [ex_node 1; ex_node 2] [ex_node 1; ex_node 2] = VErrInsufficient /\
+  exists vals vents,
+    elect_core (mkParams 1 100 1 true false) [] [0; 1] [ex_node 1; ex_node 2] [ex_node 1; ex_node 2] = VOk vals vents.
+Proof.
+  split; [reflexivity|]. split; [reflexivity|]. split; [vm_compute; reflexivity|].
+  eexists. eexists. vm_compute. reflexivity.
+Qed.
